@@ -428,6 +428,45 @@ func TestVerifC04(t *testing.T) {
 			}
 			run.Count("subnet_iterations_checked", 1)
 		}
+		// one generator, many passes (one per port of a port scan, one per live rescan): every pass is a permutation
+		// of the subnet again - sizes whose cyclic group is larger than the range (/29, /27, /26, /25, /23) included
+		for _, sn := range []string{"10.1.2.8/29", "10.1.2.32/27", "10.1.2.64/26", "10.1.2.128/25", "10.1.2.0/23", "10.1.2.0/24", "10.1.2.4/30"} {
+			_, ipnet, _ := net.ParseCIDR(sn)
+			ones, _ := ipnet.Mask.Size()
+			want := 1 << uint(32-ones)
+			gen := NewIPGenerator()
+			bad := ""
+			for pass := 0; pass < 60 && bad == ""; pass++ {
+				seen := map[string]bool{}
+				ctx, cancel := context.WithTimeout(context.Background(), 60*time.Second)
+				ch, err := gen.IPs(ctx, &Range{DstSubnet: ipnet})
+				if err != nil {
+					bad = fmt.Sprintf("pass %d refused: %v", pass+1, err)
+				} else {
+					for ig := range ch {
+						a, err := ig.GetIP()
+						switch {
+						case err != nil:
+							bad = fmt.Sprintf("pass %d: error instead of an address: %v", pass+1, err)
+						case !ipnet.Contains(a):
+							bad = fmt.Sprintf("pass %d: address %v outside %s", pass+1, a, sn)
+						case seen[a.String()]:
+							bad = fmt.Sprintf("pass %d: address %v produced twice", pass+1, a)
+						}
+						seen[a.String()] = true
+					}
+				}
+				cancel()
+				if bad == "" && len(seen) != want {
+					bad = fmt.Sprintf("pass %d: %d addresses produced, %d expected", pass+1, len(seen), want)
+				}
+			}
+			run.Eval(60)
+			if bad != "" {
+				run.Violation("subnet-iteration:repeated-pass", fmt.Sprintf("subnet %s, one generator asked again and again: %s", sn, bad), sn)
+			}
+			run.Count("repeated_pass_subnets_checked", 1)
+		}
 		// the widest subnets cannot be walked to the end here: the first 20000 addresses must come without an
 		// error, inside the subnet and without repetition (0.0.0.0/0 is the one range of size 2^32)
 		for _, sn := range []string{"0.0.0.0/0", "0.0.0.0/1", "128.0.0.0/1", "64.0.0.0/2", "10.0.0.0/8"} {
